@@ -3,4 +3,4 @@ From Coq Require Import ExtrOcamlBasic.
 From NV Require Import Base.Witness Fasta.Layout Fasta.Indexer Fasta.Query Fasta.Reader Fasta.Fastq
                        Io.Source Fasta.Delivery.
 Extraction "model.ml" nv_types_witness lines index_file index_and_query_many reader_query_gen write_record
-  read_file write_file write_qfile read_qfile index_qfile index_and_query_delivered.
+  read_file write_file write_qfile read_qfile index_qfile index_and_query_delivered naive_file.
